@@ -47,7 +47,7 @@ func (world) Rule(p string) string {
 	case "C23":
 		return "one run = a real dot/state GrandpaState+BlockState with the real dot/digest BlockImportHandler over the simulated disk; a generated block tree with forks carries real GRANDPA consensus digests (scheduled changes with delay 0-3, forced changes with delay 0-2, one pending scheduled change per branch at a time, at most one pending forced change per fork; a third of the forced-change headers also carry a scheduled-change item, before or after the forced one, which Substrate ignores); blocks are imported in order (HandleDigests then ApplyForcedChanges, as dot/core does), finalisations target any live block but never jump over the effective block of a pending scheduled change (the cap an honest voter respects), and the finalisation handler's ApplyScheduledChanges step is delivered immediately or after later imports. After every step current set id, the authority list of every set and (when no forced change happened) the set id of every block number are compared with a reference Substrate authority-set model. A fifth of the runs may also finalise past the announcing block of a pending forced change; from then on only the invariants that hold under every reading are checked (every set up to the current one has authorities; no set holds the list of a scheduled change announced together with a forced change). Non-trivial = at least one change applied."
 	case "C26":
-		return "one run = a real dot/state EpochState+BlockState (+ the real dot/digest BlockImportHandler) over the simulated disk; generated blocks on competing forks with tape-chosen slot gaps (epoch length 10, skipped epochs included) announce next-epoch data and configuration in the first block of an epoch on their chain (sometimes not at all); blocks are imported, finalised (followed by the persistence steps of the digest handler), the node is crashed and restarted (unfinalised blocks re-imported); for live blocks the epoch data and configuration of their epoch and the next one are looked up under a 40 s wall-clock watchdog and compared with what walking that block's own ancestry finds (latest earlier configuration, genesis as fallback). A lookup that does not return is a violation. Non-trivial = at least one finalisation or restart."
+		return "one run = a real dot/state EpochState+BlockState (+ the real dot/digest BlockImportHandler) over the simulated disk; generated blocks on competing forks with tape-chosen slot gaps (epoch length 10, skipped epochs included) announce next-epoch data and configuration in the first block of an epoch on their chain (sometimes not at all); blocks are imported, finalised (followed by the persistence steps of the digest handler), the node is crashed and restarted (unfinalised blocks re-imported); for live blocks the epoch data and configuration of their epoch and the next one are looked up under a 40 s wall-clock watchdog and compared with what walking that block's own ancestry finds (latest earlier configuration, genesis as fallback). A lookup that does not return is a violation. Non-trivial = at least one finalisation or restart. In a sixth of the finalisations the simulated disk refuses one of the first four writes of the finalise step (FinalizeBABENextEpochData / FinalizeBABENextConfigData); the step is not repeated, and the data of the epoch after the finalised block, announced on the finalised chain, must stay available to every descendant (either persisted or still pending)."
 	case "C36":
 		return "fault enumeration: one run = one generated scenario (4-26 operations: block imports with real state tries, forks, scheduled and forced GRANDPA authority changes, finalisations with justification/votes/round bookkeeping in the order lib/grandpa and dot/core issue them; an eighth of the imports have their trie batch refused once by the disk, after which the same block is executed afresh and imported again) executed once over the simulated disk; then the node is restarted through the real state.Service.Start() reload path from EVERY prefix of the write log (each Put one record, each batch one atomic record). Oracle per restart: start succeeds; finalised head header, body and full state readable and equal to the reference; finalised number and (set id, round) never older than at the previous crash index; current set id has an authority list and an activation block. Crash indexes are enumerated completely per scenario, scenarios are sampled. Non-trivial = at least 10 writes."
 	}
